@@ -224,8 +224,7 @@ func (fv *FV) assign(e *Env, s *ast.AssignStmt) {
 		if cur.T.Sort == sInt && rhs.T.Sort == sInt {
 			fv.storeLV(e, lv, fv.arith(e, s, op, cur.T, rhs.T, lv.typ))
 		} else if cur.T.Sort == sStr && op == "+" {
-			fv.s.declFun("str_cat", []string{sStr, sStr}, sStr)
-			fv.storeLV(e, lv, Value{K: kScalar, T: app(sStr, "str_cat", cur.T, rhs.T)})
+			fv.storeLV(e, lv, Value{K: kScalar, T: fv.strCat(cur.T, rhs.T)})
 		} else {
 			fv.storeLV(e, lv, fv.unknown(lv.typ, "op-assign"))
 		}
